@@ -69,15 +69,6 @@ inductive Api
   | irq
   deriving Repr, Inhabited
 
-/-- output values of a call, as the trace shows them -/
-inductive Out
-  | none
-  | nat (n : Nat)
-  | int (i : Int)
-  | bits (u : UInt32)
-  | byte (b : UInt8)
-  deriving DecidableEq, Repr, Inhabited
-
 /-- fuel for the two chip-bounded loops when a script is executed -/
 def execFuel : Nat := 5000
 
